@@ -1,6 +1,8 @@
 package jsoac
 
 import (
+	"strconv"
+
 	"github.com/jsightapi/jsight-schema-core/notations/jschema"
 	"github.com/jsightapi/jsight-schema-core/zzverif"
 	"github.com/jsightapi/jsight-schema-core/zzverif/zzjson"
@@ -176,7 +178,14 @@ func oJoin(parts ...[]byte) []byte {
 func VerifC08_Scalars() {
 	zzverif.Expect("accepted", "variation-accepted")
 	var rules, v, w []byte
-	switch zzverif.IntRange("family", 0, 3) {
+	precisionP := 0
+	switch zzverif.IntRange("family", 0, 4) {
+	case 4: // precision -> multipleOf
+		P := zzverif.IntRange("precision", 1, 9)
+		v = []byte{zzverif.Digit("v.i"), '.', zzverif.Digit("v.f")}
+		w = []byte{zzverif.Digit("w.i"), '.', zzverif.Digit("w.f")}
+		rules = []byte{'p', 'r', 'e', 'c', 'i', 's', 'i', 'o', 'n', ':', ' ', byte('0' + P)}
+		precisionP = P
 	case 0: // min / max with exclusivity
 		// the varied value keeps the example's inferred type (integer / float)
 		frac := zzverif.Bool("frac")
@@ -210,10 +219,17 @@ func VerifC08_Scalars() {
 		}
 	case 2: // enum of two entries
 		e1 := []byte{zzverif.Digit("e1")}
-		e2 := []byte{'"', zzverif.OneOf("e2", "ab1"), '"'}
+		// string entries: a plain character or an escaped control / DEL / quote character
+		str := func(tag string) []byte {
+			if zzverif.Bool(tag + "esc") {
+				return []byte(`"` + []string{"\\u0001", "\\u007f", "\\u000b", "\\\"", "\\n"}[zzverif.IntRange(tag+"which", 0, 4)] + `"`)
+			}
+			return []byte{'"', zzverif.OneOf(tag+"s", "ab1"), '"'}
+		}
+		e2 := str("e2.")
 		pick := func(tag string) []byte {
 			if zzverif.Bool(tag + "str") {
-				return []byte{'"', zzverif.OneOf(tag+"s", "ab1"), '"'}
+				return str(tag)
 			}
 			return []byte{zzverif.Digit(tag + "d")}
 		}
@@ -239,6 +255,12 @@ func VerifC08_Scalars() {
 		return
 	}
 	zzverif.Assert(oValid(p, ex), "the example is a valid instance of the generated Schema Object")
+	if precisionP > 0 {
+		// multipleOf must be the double nearest to 10^-P, otherwise values with
+		// P fraction digits (which the precision rule accepts) are not multiples
+		want, _ := strconv.ParseFloat("1e-"+string([]byte{byte('0' + precisionP)}), 64)
+		zzverif.Assert(p.MultipleOf != nil && *p.MultipleOf == want, "multipleOf is exactly 10^-precision")
+	}
 	// one scalar varied: every value the schema's own rules accept validates too
 	s2 := jschema.New("s2", oJoin(w, []byte(" // {"), rules, []byte("}")))
 	if s2.Check() == nil {
